@@ -26,6 +26,7 @@ import (
 	modconfig "github.com/foxcpp/maddy/framework/config/module"
 	"github.com/foxcpp/maddy/framework/exterrors"
 	"github.com/foxcpp/maddy/framework/module"
+	"github.com/foxcpp/maddy/internal/modify"
 	"github.com/foxcpp/maddy/internal/testutils"
 )
 
@@ -85,6 +86,23 @@ func (r *v6Run) call(check, st int, stage string) module.CheckResult {
 	}
 	return module.CheckResult{}
 }
+
+// a recipient modifier that fails for the recipients of a given set (local parts "r<id>")
+type v6Mod struct{ fail map[string]bool }
+type v6ModState struct{ m *v6Mod }
+
+func (m *v6Mod) ModStateForMsg(context.Context, *module.MsgMetadata) (module.ModifierState, error) {
+	return v6ModState{m}, nil
+}
+func (s v6ModState) RewriteSender(_ context.Context, from string) (string, error) { return from, nil }
+func (s v6ModState) RewriteRcpt(_ context.Context, to string) ([]string, error) {
+	if i := strings.IndexByte(to, '@'); i > 0 && s.m.fail[to[:i]] {
+		return nil, errors.New("scripted modifier failure")
+	}
+	return []string{to}, nil
+}
+func (s v6ModState) RewriteBody(context.Context, *textproto.Header, buffer.Buffer) error { return nil }
+func (s v6ModState) Close() error                                                         { return nil }
 
 type v6Check struct {
 	id  int
@@ -230,6 +248,18 @@ func TestVerif_C06(t *testing.T) {
 		for i := 0; i < nR; i++ {
 			rcpts = append(rcpts, rb{10 + i, r.intn(nBlocks)})
 		}
+		// the block's recipient modifier fails for a later recipient of a block that already has one
+		modFail := map[string]bool{}
+		var modFailIDs []int
+		if nR >= 2 && r.chance(20) {
+			k := 1 + r.intn(nR-1)
+			if r.chance(70) {
+				rcpts[k].b = rcpts[0].b
+			}
+			modFail[fmt.Sprintf("r%d", rcpts[k].r)] = true
+			modFailIDs = append(modFailIDs, rcpts[k].r)
+			stats["modifier-failure"]++
+		}
 		// script: mostly quiet, a few verdicts
 		script := map[string]int{}
 		var sterms []string
@@ -302,7 +332,8 @@ func TestVerif_C06(t *testing.T) {
 			}
 			perRcpt := map[string]*rcptBlock{}
 			for b := 0; b < nBlocks; b++ {
-				perRcpt[fmt.Sprintf("b%d.example", b)] = &rcptBlock{checks: toChecks(blkC[b]), targets: []module.DeliveryTarget{targets[blkT[b]]}}
+				perRcpt[fmt.Sprintf("b%d.example", b)] = &rcptBlock{checks: toChecks(blkC[b]), targets: []module.DeliveryTarget{targets[blkT[b]]},
+					modifiers: modify.Group{Modifiers: []module.Modifier{&v6Mod{fail: modFail}}}}
 			}
 			zones := map[string]mockdns.Zone{}
 			switch dmarcPol {
@@ -420,8 +451,8 @@ func TestVerif_C06(t *testing.T) {
 		for _, x := range rcpts {
 			rts = append(rts, fmt.Sprintf("(%s, %s)", cN(x.r), cN(x.b)))
 		}
-		out.Case(fmt.Sprintf("CMsg %s {| g_checks := %s; s_checks := %s; blocks := %s; dmarc := %s |} %s %s %s",
-			cList(sterms), nl(gC), nl(sC), cList(blks), cN(dmarcPol), cList(rts), oa, on))
+		out.Case(fmt.Sprintf("CMsg %s {| g_checks := %s; s_checks := %s; blocks := %s; dmarc := %s; mod_fail := %s |} %s %s %s",
+			cList(sterms), nl(gC), nl(sC), cList(blks), cN(dmarcPol), nl(modFailIDs), cList(rts), oa, on))
 		stats[fmt.Sprintf("dmarc=%d", dmarcPol)]++
 	}
 	keys := make([]string, 0, len(stats))
